@@ -231,10 +231,12 @@ def get_model(
 
         logger.debug('Found "%s" association.', assoc.name)
 
+        # The association classes are named after the asset types the
+        # association was declared with, not after those of the instances
         assoc_name = lang_classes_factory.get_association_by_signature(
             assoc.name,
-            left_asset.type,
-            right_asset.type
+            assoc.left_field.asset.name,
+            assoc.right_field.asset.name
         )
 
         if not assoc_name:
